@@ -366,7 +366,7 @@ int Request::redirect(Verb v, estring_view location, bool enable_proxy) {
 
 int Request::parse_request_line(Parser &p) {
     auto verb_str = p.extract_until_char(' ');
-    m_verb = string_to_verb(m_buf | verb_str);
+    m_verb = string_to_verb(verb_str | m_buf);
     if (verb() == Verb::UNKNOWN)
         LOG_ERROR_RETURN(0, -1, "invalid http method");
     auto target = p.extract_until_char(' ');
